@@ -283,6 +283,18 @@ def gen_run(rnd, lay, ip, T, mode, scen, K, reps, big=False):
             return ("r", tuple(f32bits(max(0.0, c + rnd.choice(NN_OFF))) if c == 0 else f32bits(c + rnd.choice(NN_OFF)) for c in p))
         return ("r", tuple(f32bits(c + rnd.randrange(0, 32) / 32.0) for c in p))
 
+    if mode == "two":
+        # a second field of the same type whose extents fall into another power-of-two bracket; lookups only
+        other = [x for x in (2, 3, 5, 9, 12, 17) if (x - 1).bit_length() != (max(sz) - 1).bit_length()]
+        sz2 = [rnd.choice(other) for _ in sz]
+        while lay != "strided" and L.curve_bound(lay, sz2) > 4096:
+            sz2[sz2.index(max(sz2))] = 3
+        for t in range(T):
+            ext = sz2 if t % 2 else sz
+            for _ in range(K):
+                p = [rnd.randrange(max(1, s - 1)) for s in ext] if ip == "linear" else [rnd.randrange(s) for s in ext]
+                progs[t].append(read_at(p))
+        return {"lay": lay, "interp": ip, "N": len(sz), "sz": sz, "sz2": sz2, "T": T, "mode": mode, "scen": "readers", "reps": reps, "progs": progs}
     if scen == "readers":
         for t in range(T):
             for _ in range(K):
@@ -323,18 +335,21 @@ def run_line(r):
                 acts.append(f"{t} r {' '.join(map(str, a[1]))}")
             else:
                 acts.append(f"{t} w {' '.join(map(str, a[1]))} {a[2]}")
-    return f"run {r['lay']} {r['interp']} {r['N']} {' '.join(map(str, r['sz']))} {r['T']} {r['mode']} {r['reps']} ; " + " ; ".join(acts)
+    two = (" " + " ".join(map(str, r["sz2"]))) if r.get("mode") == "two" else ""
+    return f"run {r['lay']} {r['interp']} {r['N']} {' '.join(map(str, r['sz']))} {r['T']} {r['mode']} {r['reps']}{two} ; " + " ; ".join(acts)
 
 
 def model_side(runs, rnd):
     """footprints of every action from the model; NoConflict at cell level; Conc.run on a sampled interleaving for direct / nn"""
     want = {}
+    def ext(r, t):
+        return tuple(r["sz2"]) if (r.get("mode") == "two" and t % 2) else tuple(r["sz"])
     for r in runs:
-        for prog in r["progs"]:
+        for t, prog in enumerate(r["progs"]):
             for a in prog:
-                k = (r["interp"] if a[0] == "r" else "direct", r["lay"], tuple(r["sz"]), a[1])
+                k = (r["interp"] if a[0] == "r" else "direct", r["lay"], ext(r, t), a[1])
                 want[k] = None
-        if r["interp"] != "linear":
+        if r["interp"] != "linear" and r.get("mode") != "two":
             for p in itertools.product(*[range(s) for s in r["sz"]]):
                 want[("direct", r["lay"], tuple(r["sz"]), p)] = None
     keys = list(want)
@@ -348,10 +363,10 @@ def model_side(runs, rnd):
         cells = []          # per thread: (reads, writes)
         ok = True
         cprogs = []
-        for prog in r["progs"]:
+        for t, prog in enumerate(r["progs"]):
             rd, wr, cp = set(), set(), []
             for a in prog:
-                fp = want[(r["interp"] if a[0] == "r" else "direct", r["lay"], sz, a[1])]
+                fp = want[(r["interp"] if a[0] == "r" else "direct", r["lay"], ext(r, t), a[1])]
                 if fp is None:
                     ok = False; break
                 if a[0] == "r":
@@ -362,7 +377,7 @@ def model_side(runs, rnd):
         r["model_ub"] = not ok
         r["noconflict"] = ok and all(not (cells[u][1] & (cells[t][0] | cells[t][1])) for t in range(len(cells)) for u in range(len(cells)) if t != u)
         r["model_digests"] = None
-        if ok and r["noconflict"] and r["interp"] != "linear":
+        if ok and r["noconflict"] and r["interp"] != "linear" and r.get("mode") != "two":
             bound = L.curve_bound(r["lay"], list(sz))
             mem = [0] * bound
             for p in itertools.product(*[range(s) for s in sz]):
@@ -457,7 +472,7 @@ def part_tsan(ctx, corr, exes, runs, shrink=True):
         canon = {k: r[k] for k in ("lay", "interp", "sz", "T", "mode", "scen", "progs")}
         corr.case(("tsan", canon), r["T"] >= 2)
         corr.dist[f"tsan/{r['lay']}/{r['interp']}/T{r['T']}/{r['mode']}/{r['scen']}"] += 1
-        cj = {"part": "tsan", "run": {k: r[k] for k in ("lay", "interp", "N", "sz", "T", "mode", "scen", "reps", "progs")}}
+        cj = {"part": "tsan", "run": {k: r[k] for k in ("lay", "interp", "N", "sz", "sz2", "T", "mode", "scen", "reps", "progs") if k in r}}
         key = {"kind": "tsan", "lay": r["lay"], "interp": r["interp"], "T": r["T"], "mode": r["mode"], "scen": r["scen"]}
         if r["model_ub"] or not r["noconflict"]:
             corr.add_obl("tsan_run", 1, 1)
@@ -484,7 +499,7 @@ def part_tsan(ctx, corr, exes, runs, shrink=True):
                     what, so, se = w2, so2, se2
                 else:
                     small = r
-                cj = {"part": "tsan", "run": {k: small[k] for k in ("lay", "interp", "N", "sz", "T", "mode", "scen", "reps", "progs")}}
+                cj = {"part": "tsan", "run": {k: small[k] for k in ("lay", "interp", "N", "sz", "sz2", "T", "mode", "scen", "reps", "progs") if k in small}}
             nops = sum(len(p) for p in small["progs"])
             corr.violation("tsan_run", f"{r['interp']}({r['lay']} {r['sz']}), {r['T']} threads, {r['mode']} views, {r['scen']}, {nops} operations: {what}",
                            cj, impl={"answer": so[:400], "tsan": se[:1500]}, model="no report; conc == seq == Conc.run", oracle_fails=kind in ("race", "nondet", "crash"),
@@ -511,6 +526,8 @@ def tsan_runs(ctx):
                     for scen in ("readers", "writers"):
                         for _ in range(per):
                             runs.append(gen_run(rnd, lay, ip, T, mode, scen, K, reps, big=not ctx.quick))
+                if T in (2, 8) or not ctx.quick:
+                    runs.append(gen_run(rnd, lay, ip, T, "two", "readers", K, reps + 2, big=not ctx.quick))
     return runs
 
 
